@@ -11,3 +11,4 @@ import Scfg.Props.C16
 import Scfg.Props.C09
 import Scfg.Props.C11
 import Scfg.Props.C12
+import Scfg.Props.C15
